@@ -3148,6 +3148,7 @@ func (h *RequestHeader) parseHeaders(buf []byte, blockEnd int) (int, error) {
 
 	contentLengthSeen := false
 	transferEncodingSeen := false
+	transferEncodingNotChunked := false
 	hostSeen := false
 
 	var s headerScanner
@@ -3265,6 +3266,7 @@ func (h *RequestHeader) parseHeaders(buf []byte, blockEnd int) (int, error) {
 			if isTransferEncoding {
 				isIdentity := caseInsensitiveCompare(s.value, strIdentity)
 				isChunked := caseInsensitiveCompare(s.value, strChunked)
+				transferEncodingNotChunked = !isChunked
 
 				if !isIdentity && !isChunked {
 					h.connectionClose = true
@@ -3304,6 +3306,14 @@ func (h *RequestHeader) parseHeaders(buf []byte, blockEnd int) (int, error) {
 		// close connection for non-http/1.1 request unless 'Connection: keep-alive' is set.
 		v := peekArgBytes(h.h, strConnection)
 		h.connectionClose = !hasHeaderValue(v, strKeepAlive)
+	}
+	if transferEncodingSeen && (contentLengthSeen || transferEncodingNotChunked) {
+		// RFC 9112 section 6.3: a request carrying both Transfer-Encoding and
+		// Content-Length, or a Transfer-Encoding whose final coding is not
+		// chunked (the tolerated 'identity'), has ambiguous framing. It may
+		// still be processed, but the connection must be closed afterwards so
+		// that no bytes following it are ever treated as another request.
+		h.connectionClose = true
 	}
 	return s.r, nil
 }
